@@ -125,7 +125,10 @@ def _gen_value(rng, model, container_path, swarm):
             if rng.random() < 0.15:
                 tgt = container_path + [name]  # alias whose target path is its own path
             return {"new": "alias", "name": name, "tstr": ".".join(tgt)}
-        return {"new": "alias", "name": name, "tobj": _gen_path(rng, model, non_alias=rng.random() < 0.8)}
+        spec = {"new": "alias", "name": name, "tobj": _gen_path(rng, model, non_alias=rng.random() < 0.8)}
+        if rng.random() < 0.12:
+            spec["inherited"] = True
+        return spec
     kind = rng.choice(KINDS[1:] if rng.random() < 0.8 else KINDS)
     spec = {"new": kind, "name": name}
     if swarm.get("stub_modules") and rng.random() < 0.15:
@@ -384,6 +387,11 @@ class Executor:
                 tags.append("preparented")
             if kind == "alias":
                 if node.tobj is not None:
+                    if spec.get("inherited"):
+                        # an alias that carries the `inherited` mark although it is a declared member (what pinning the
+                        # wrapper of an inherited member with `cls.set_member(n, cls.inherited_members[n])` gives)
+                        kw["inherited"] = True
+                        tags.append("marked-inherited")
                     real = g.Alias(name, self.objs[node.tobj], **kw)
                 else:
                     real = g.Alias(name, node.tstr, **kw)
@@ -1087,7 +1095,7 @@ class Executor:
                             # (... and only when that wrapper was *made* after the declared alias had been inserted: a wrapper
                             # made before, when the name was still inherited, is a stale alias like any other)
                             born_after = _RecDict.first_seen.get(id(reg), (0, None))[0] > self.attach_gseq.get(id(co), 1 << 60)
-                            if reg is not None and mine and writes[-1][1] != id(co) and not (getattr(reg, "inherited", False) and born_after and id(co) in self.uids and not self.used_second_collection):
+                            if reg is not None and mine and writes[-1][1] != id(co) and not (getattr(reg, "inherited", False) and id(reg) not in self.uids and born_after and id(co) in self.uids and not self.used_second_collection):
                                 # this alias did register itself here; later another alias object that lived at this
                                 # path earlier (deleted, replaced or moved away since; entries are never purged)
                                 # re-registered itself and displaced it
